@@ -115,12 +115,181 @@ func genC09(r *vh.Runner) {
 			c.Bubble(func() { backlogRun(r, c, i) })
 		})
 	}
+	nn := r.Pick(8, 160)
+	for i := 0; i < nn; i++ {
+		r.Case(fmt.Sprintf("neighbour-reaped/%d", i), map[string]any{"case": i}, func(c *vh.Case) {
+			c.Bubble(func() { neighbourReapedRun(r, c, i) })
+		})
+	}
 	no := r.Pick(6, 120)
 	for i := 0; i < no; i++ {
 		r.Case(fmt.Sprintf("oversize-message/%d", i), map[string]any{"case": i}, func(c *vh.Case) {
 			c.Bubble(func() { oversizeRun(r, c, i) })
 		})
 	}
+}
+
+// neighbourReapedRun: a reliable and an unreliable tube hold the same id (ids
+// are handed out per kind). One of the two is closed from both ends and the
+// muxers get time to forget it; the other stays open. A tube of the surviving
+// kind created afterwards must get another id, and what is written on the old,
+// still open tube arrives on that tube and on no other (faithful network).
+func neighbourReapedRun(r *vh.Runner, c *vh.Case, i int) {
+	rng := vh.NewRand(r.Seed, "c09-neighbour", i)
+	mp := newMuxPair(2 * time.Hour)
+	defer mp.stop()
+	w, rd := mp.a, mp.b
+	if rng.Bool() {
+		w, rd = mp.b, mp.a
+	}
+	var acc []accepted
+	var amu sync.Mutex
+	go acceptLoop(rd, &acc, &amu)
+	find := func(id byte, reliable bool, skip tubes.Tube) tubes.Tube {
+		amu.Lock()
+		defer amu.Unlock()
+		for _, a := range acc {
+			if a.id == id && a.reliable == reliable && a.tube != skip {
+				return a.tube
+			}
+		}
+		return nil
+	}
+	pre := rng.Intn(4) // tubes of both kinds opened first, so that the shared id varies
+	for k := 0; k <= pre; k++ {
+		if _, err := w.CreateReliableTube(tubes.TubeType(10 + k)); err != nil {
+			c.Violate("C09:create-fails:neighbour-reaped", map[string]any{"err": err.Error()})
+			return
+		}
+		if _, err := w.CreateUnreliableTube(tubes.TubeType(20 + k)); err != nil {
+			c.Violate("C09:create-fails:neighbour-reaped", map[string]any{"err": err.Error()})
+			return
+		}
+	}
+	rel, err := w.CreateReliableTube(tubes.TubeType(40))
+	if err != nil {
+		c.Violate("C09:create-fails:neighbour-reaped", map[string]any{"err": err.Error()})
+		return
+	}
+	unrel, err := w.CreateUnreliableTube(tubes.TubeType(41))
+	if err != nil {
+		c.Violate("C09:create-fails:neighbour-reaped", map[string]any{"err": err.Error()})
+		return
+	}
+	if rel.GetID() != unrel.GetID() {
+		return // ids of the two kinds are independent: nothing to observe here
+	}
+	id := rel.GetID()
+	bub.Settle(time.Second)
+	relPeer, _ := find(id, true, nil).(*tubes.Reliable)
+	unrelPeer, _ := find(id, false, nil).(*tubes.Unreliable)
+	if relPeer == nil || unrelPeer == nil {
+		c.Violate("C09:opened-tube-never-offered-or-offered-with-other-type:neighbour-reaped", map[string]any{"id": id})
+		return
+	}
+	key := rng.U64()
+	closeReliable := rng.Bool()
+	buf := make([]byte, 70000)
+	// both carry something first
+	m0 := umsg(key, i, 0, 100)
+	unrel.WriteMsg(m0)
+	rel.Write(m0)
+	bub.Settle(time.Second)
+	unrelPeer.SetReadDeadline(time.Now().Add(time.Second))
+	if n, err := unrelPeer.ReadMsg(buf); err != nil || !bytes.Equal(buf[:n], m0) {
+		return // lossless network: does not happen; nothing is judged on a tube that does not work
+	}
+	if _, err := io.ReadFull(relPeer, buf[:len(m0)]); err != nil || !bytes.Equal(buf[:len(m0)], m0) {
+		c.Violate("C09:stream-breaks:neighbour-reaped", map[string]any{"id": id, "err": fmt.Sprint(err)})
+		return
+	}
+	// one of the two goes away on both ends
+	var gone [2]tubes.Tube
+	if closeReliable {
+		gone = [2]tubes.Tube{rel, relPeer}
+	} else {
+		gone = [2]tubes.Tube{unrel, unrelPeer}
+	}
+	var cw sync.WaitGroup
+	for _, t := range gone {
+		cw.Add(1)
+		go func(t tubes.Tube) { defer cw.Done(); t.Close(); t.WaitForClose() }(t)
+	}
+	if !bub.Within(bub.Go(cw.Wait), 5*time.Minute) {
+		c.Inconclusive("tube did not close within 5 virtual minutes (C16 judges shutdown)")
+		return
+	}
+	bub.Settle(time.Duration(rng.Pick(1, 600, 600, 3600)) * time.Second) // before / after the muxers forget the closed tube
+	// a new tube of the surviving kind
+	var fresh tubes.Tube
+	if closeReliable {
+		fresh, err = w.CreateUnreliableTube(tubes.TubeType(42))
+	} else {
+		fresh, err = w.CreateReliableTube(tubes.TubeType(42))
+	}
+	if err != nil {
+		c.Violate("C09:create-fails:neighbour-reaped", map[string]any{"err": err.Error()})
+		return
+	}
+	if fresh.GetID() == id {
+		c.Violate("C09:two-live-tubes-share-an-id:neighbour-reaped", map[string]any{"id": id, "closed_kind_reliable": closeReliable})
+		return
+	}
+	bub.Settle(time.Second)
+	freshPeer := find(fresh.GetID(), !closeReliable, nil)
+	if freshPeer == nil {
+		c.Violate("C09:opened-tube-never-offered-or-offered-with-other-type:neighbour-reaped", map[string]any{"id": fresh.GetID()})
+		return
+	}
+	// the survivor still carries its own data, and only there
+	m1, m2 := umsg(key, i, 1, 200), umsg(key, i, 2, 300)
+	if closeReliable {
+		unrel.WriteMsg(m1)
+		fresh.(*tubes.Unreliable).WriteMsg(m2)
+		bub.Settle(time.Second)
+		for _, e := range []struct {
+			t    *tubes.Unreliable
+			want []byte
+			name string
+		}{{unrelPeer, m1, "survivor"}, {freshPeer.(*tubes.Unreliable), m2, "fresh"}} {
+			for {
+				e.t.SetReadDeadline(time.Now().Add(time.Second))
+				n, err := e.t.ReadMsg(buf)
+				if err != nil {
+					break
+				}
+				if !bytes.Equal(buf[:n], e.want) {
+					c.Violate("C09:unreliable-delivers:message-of-another-instance:neighbour-reaped", map[string]any{"on": e.name, "id": id, "len": n, "head": vh.HexCap(buf[:n], 16)})
+					return
+				}
+				r.Count("unreliable_messages_checked", 1)
+			}
+		}
+	} else {
+		rel.Write(m1)
+		fresh.(*tubes.Reliable).Write(m2)
+		for _, e := range []struct {
+			t    *tubes.Reliable
+			want []byte
+			name string
+		}{{relPeer, m1, "survivor"}, {freshPeer.(*tubes.Reliable), m2, "fresh"}} {
+			got := make([]byte, len(e.want))
+			e.t.SetReadDeadline(time.Now().Add(time.Minute))
+			n, err := io.ReadFull(e.t, got)
+			if !bytes.Equal(got[:n], e.want[:n]) {
+				c.Violate("C09:stream-delivers:bytes-of-another-tube:neighbour-reaped", map[string]any{"on": e.name, "id": id, "read": n, "head": vh.HexCap(got[:n], 16)})
+				return
+			}
+			if err != nil {
+				c.Violate("C09:stream-breaks:neighbour-reaped", map[string]any{"on": e.name, "id": id, "read": n, "err": err.Error()})
+				return
+			}
+			r.Count("stream_bytes_read_and_checked", int64(n))
+		}
+	}
+	r.Count("evaluations", 3)
+	r.Count("same_id_neighbour_closed_and_forgotten", 1)
+	r.Nontrivial(fmt.Sprintf("neighbour|%d|%d|%v", i, id, closeReliable))
 }
 
 // oversizeRun: single messages around and above what one frame and one
